@@ -16,6 +16,7 @@ import ref_ed
 import ref_weier
 import ref_do
 import ref_gls
+import c03
 
 OKST = "ffffffff"
 NOST = "00000000"
@@ -189,11 +190,39 @@ def hostile_strings(g, rng):
     return bytes(b), "single-bit"
 
 
+KEYOBJ = ("ed25519", "ed448", "jq255e", "jq255s", "gls254")
+
+
 def gen_curve(rng, g, n):
     out = []
     T = "g %s " % g.name
     for _ in range(n):
-        kind = rng.choices(["decode", "reps", "batch", "map"], [60, 20, 8, 12])[0]
+        kind = rng.choices(["decode", "reps", "batch", "map", "keyobj"], [60, 20, 8, 12, 4 if g.name in KEYOBJ else 0])[0]
+        if kind == "keyobj":
+            # key objects built from group elements / scalars (PublicKey::from_point on an arbitrary representative,
+            # PrivateKey::from_scalar): their encoding is the canonical one, and they verify what the key verifies
+            msg = bytes(rng.getrandbits(8) for _ in range(rng.choice([0, 1, 32, 100])))
+            if g.name in ("ed25519", "ed448"):
+                seed = bytes(rng.getrandbits(8) for _ in range(32 if g.name == "ed25519" else 57))
+                if g.name == "ed25519":
+                    pk = ref_ed.ed25519_public_key(seed); sig = ref_ed.ed25519_sign(seed, msg)
+                else:
+                    pk = ref_ed.ed448_public_key(seed); sig = ref_ed.ed448_sign(seed, msg, b"", False)
+                P = g.C.decode(pk)
+                lines = [T + "pkfp %s %s %s" % (c03.D(g, P, rng), sig.hex(), msg.hex() if msg else "-"),
+                         T + "pkfp %s %s %s" % (c03.D(g, P, rng), sig.hex(), (msg + b"?").hex())]
+                exp = ["OK %s T" % pk.hex(), "OK %s F" % pk.hex()]
+            else:
+                d = rng.randrange(1, g.n) if rng.randrange(6) else rng.choice([1, 2, g.n - 1])
+                P = g.mulgen(d)
+                sig = g.D.sign(d, "", msg)
+                e = g.enc(P)
+                lines = [T + "pkfp %s %s %s" % (c03.D(g, P, rng), sig.hex(), msg.hex() if msg else "-"),
+                         T + "pkfp %s %s %s" % (c03.D(g, P, rng), sig.hex(), (msg + b"?").hex()),
+                         T + "skfs " + d.to_bytes(32, "little").hex()]
+                exp = ["OK %s T" % e, "OK %s F" % e, "OK %s %s" % (d.to_bytes(32, "little").hex(), e)]
+            out.append(Case(lines, exp, ["keyobj", g.name + ":keyobj"], "key objects"))
+            continue
         if kind == "decode":
             b, cl = hostile_strings(g, rng)
             ok, P = ref_decode(g, b)
@@ -334,7 +363,7 @@ def main(argv):
                 "x=0 with sign bit; unused bits; off-curve; non-residue; negated s/u; wrong coset; SEC1 00/02/03/04/06/07 forms, all-zero "
                 "fixed-length infinity; lengths 0..len+2) judged accept/reject by an independent reference decoder; encode() of several "
                 "representatives (lambda-scaled, torsion-shifted, (e,u)->(-e,-u), computed (P+Q)-Q); pairwise equals <=> identical bytes in "
-                "batches; one_way_map / hash_to_curve outputs against the reference maps. distinct_nontrivial = distinct requests in a class")
+                "batches; one_way_map / hash_to_curve outputs against the reference maps; PublicKey::from_point on arbitrary representatives and PrivateKey::from_scalar (canonical bytes, same verification outcome). distinct_nontrivial = distinct requests in a class")
     rep.assumptions = ["reference decoders/maps in ref_ed, ref_weier, ref_do, ref_gls (validated against the repository KAT lists of valid and invalid encodings)"]
     try:
         curves = G.ALL_CURVES
@@ -352,7 +381,7 @@ def main(argv):
             req += [c + ":decode:accept", c + ":decode:reject", c + ":reps", c + ":batch"]
         req += ["decode:x=0-with-sign-bit", "decode:y>=p", "decode:unused-bits-set", "decode:negated-s", "decode:negated-u", "decode:hybrid-06-07",
                 "decode:all-zero-fixed-length", "weier:0x00-infinity-accepted", "decode:field-top-bit-set", "decode:length+-1", "ristretto255:map",
-                "decaf448:map", "jq255e:map", "jq255s:map", "gls254:map", "map:hashed", "map:directed-halves", "jq255e:map_to_curve", "jq255s:map_to_curve", "gls254:map_to_curve"]
+                "decaf448:map", "jq255e:map", "jq255s:map", "gls254:map", "map:hashed", "map:directed-halves", "jq255e:map_to_curve", "jq255s:map_to_curve", "gls254:map_to_curve"] + [c + ":keyobj" for c in KEYOBJ]
         rep.require(*req)
     except Inconclusive as e:
         rep.incon.append(str(e))
